@@ -13,10 +13,13 @@ NMAX_ALL = {"quick": 5, "thorough": 6}
 _tmp = None
 
 GFA1_LINES = ["S\tC\tACGT\tx1:i:2", "S\tD\t*\ts2:Z:ab\tLN:i:7", "S\tA\t*", "S\tB\tACGT", "L\tA\t+\tB\t-\t*", "C\tA\t+\tB\t+\t0\t*", "P\tp\tA+,B-\t*", "H\tVN:Z:1.0",
-              "L\tB\t+\tA\t+\t2M", "P\tq\tB+\t*"]
+              "L\tB\t+\tA\t+\t2M", "P\tq\tB+\t*",
+              # segments carrying a tag of each datatype (the version of an S line is told from its fields)
+              "S\tE\t*\tjj:J:[1, 2]", "S\tF\tACGT\tjo:J:{\"a\": 1}\thh:H:1A", "S\tG\t*\tbb:B:C,1,2\tff:f:1.5\taa:A:x"]
 GFA2_LINES = ["S\tC\t4\tACGT\tx1:i:2", "S\tD\t7\t*\ts2:Z:ab\tk9:A:q", "S\tA\t10\t*", "S\tB\t4\tACGT", "E\te\tA+\tB-\t0\t1\t0\t1\t*", "G\tg\tA+\tB+\t5\t*",
               "F\tA\tr+\t0\t1\t0\t1\t*", "O\to\tA+ B-", "U\tu\tA B", "H\tVN:Z:2.0", "X\tcustom\tfield",
-              "E\t*\tB+\tA+\t0\t4$\t0\t10$\t*"]
+              "E\t*\tB+\tA+\t0\t4$\t0\t10$\t*",
+              "S\tE\t5\t*\tjj:J:[1, 2]", "S\tF\t4\tACGT\tjo:J:{\"a\": 1}\thh:H:1A", "S\tG\t9\t*\tbb:B:C,1,2\tff:f:1.5\taa:A:x"]
 NEUTRAL_LINES = ["H\taa:i:1", "H\tbb:Z:x", "# comment one", "#comment two", "H\tcc:f:1.5"]
 
 
